@@ -151,8 +151,13 @@ func MirrorApply(p *core.Prog, r *core.Report) {
 				}
 				as, ok1 := is.Body.List[0].(*ast.AssignStmt)
 				ret, ok2 := is.Body.List[1].(*ast.ReturnStmt)
-				good := ok1 && ok2 && len(as.Lhs) == 2 && len(as.Rhs) == 1 && core.ObjOf(info, as.Lhs[0]) == h && core.ObjOf(info, as.Lhs[1]) == t &&
-					len(ret.Results) == 2 && neg(ret.Results[0], h) && neg(ret.Results[1], t)
+				// the two results land in any two distinct variables (the parameters again, or fresh locals) and
+				// are returned negated in the same order
+				good := ok1 && ok2 && len(as.Lhs) == 2 && len(as.Rhs) == 1 && len(ret.Results) == 2
+				if good {
+					a, b := core.ObjOf(info, as.Lhs[0]), core.ObjOf(info, as.Lhs[1])
+					good = a != nil && b != nil && a != b && neg(ret.Results[0], a) && neg(ret.Results[1], b)
+				}
 				if good {
 					c, isC := ast.Unparen(as.Rhs[0]).(*ast.CallExpr)
 					good = isC && len(c.Args) == 2 && neg(c.Args[0], h) && neg(c.Args[1], t)
